@@ -64,7 +64,7 @@ pub fn image_mod_p<Int: Clone + Integer + NumAssign + Neg<Output = Int>>(
                 }
                 let dd = core::mem::replace(&mut mat[k][i], Int::zero());
                 for s in k + 1..n {
-                    let tmp = core::mem::replace(&mut mat[s][j], Int::zero()) * dd.clone();
+                    let tmp = mat[s][j].clone() * dd.clone();
                     let tmp = tmp + core::mem::replace(&mut mat[s][i], Int::zero());
                     let tmp = tmp % p.clone();
                     mat[s][i] = tmp;
